@@ -13,11 +13,19 @@ base=$(timeout 900 /tmp/mut_tools/baseline_in.py $wt | tail -1)
 git -C $wt checkout -q -- .
 echo "demo pristine exit=$demo_clean mutated exit=$demo_mut baseline: $base"
 # run the check against /repo with the change applied, undo straight afterwards
-git -C /repo apply $m/patch.diff || { echo "patch does not apply to /repo"; exit 2; }
+# (SCRATCH=1: against a scratch copy through VERIF_REPO instead, for when a background run is using /repo)
 cd /verif && rm -rf replays/$pid
-timeout 1200 ./check $pid --no-evidence "$@" > /tmp/chk_$pid-$k.out 2>&1; code=$?
-git -C /repo checkout -q -- .
-git -C /repo status --short | head -3
+if [ "${SCRATCH:-0}" = 1 ]; then
+  d=$(mktemp -d /tmp/mutrepo.XXXXXX); cp -r /repo/elementpath $d/
+  (cd $d && patch -s -p1 < $m/patch.diff) || { echo "patch does not apply to the copy"; rm -rf $d; exit 2; }
+  VERIF_REPO=$d timeout 1200 ./check $pid --no-evidence "$@" > /tmp/chk_$pid-$k.out 2>&1; code=$?
+  rm -rf $d
+else
+  git -C /repo apply $m/patch.diff || { echo "patch does not apply to /repo"; exit 2; }
+  timeout 1200 ./check $pid --no-evidence "$@" > /tmp/chk_$pid-$k.out 2>&1; code=$?
+  git -C /repo checkout -q -- .
+  git -C /repo status --short | head -3
+fi
 grep -c "^VIOLATION" /tmp/chk_$pid-$k.out | sed 's/^/violation lines: /'
 grep "^  class" /tmp/chk_$pid-$k.out | cut -c1-260 | head -5
 tail -1 /tmp/chk_$pid-$k.out | cut -c1-200
